@@ -118,6 +118,25 @@ CContig(c) == IvContig(cores[c].held)
 View(c) == [len |-> CLen(c), bytes |-> CBytes(c), contig |-> CContig(c), fork |-> 0,
             writable |-> cores[c].writable, held |-> cores[c].held]
 
+\* The projection logged by the harness (DESIGN 3.1 `proj`) agrees with the state of core c:
+\* every field the API reports is pinned to the model (C01, C08, C12)
+ViewOK(c, v) ==
+  /\ v.len = CLen(c)
+  /\ v.bytes = CBytes(c)
+  /\ v.contig = CContig(c)
+  /\ v.fork = 0
+  /\ v.writable = cores[c].writable
+  /\ v.held = cores[c].held
+  /\ v.beyond = <<>>      \* no index at or beyond the length is reported as held
+  /\ v.gerr = <<>>        \* every held block that was read came back
+  /\ v.pev = 0            \* reading held blocks emitted no event
+  /\ v.key = cores[c].key
+  /\ \A j \in 1..Len(v.blk) :
+       LET i == v.blk[j][1] IN
+       /\ CHas(c, i)
+       /\ v.blk[j][2] = RSize(Log(c), i)
+       /\ v.blk[j][3] = RCid(Log(c), i)
+
 \* Events (C13), in emission order, as every subscriber must see them
 EvUpgrade == <<"upgrade">>
 EvHave(s, n) == <<"have", s, n, FALSE>>
@@ -149,6 +168,11 @@ Outcome(c, op) ==
          IF CHas(c, op.i)
          THEN Same([t |-> "some", size |-> RSize(Log(c), op.i), cid |-> RCid(Log(c), op.i)], <<>>)
          ELSE Same([t |-> "none"], <<EvGet(op.i, op.bi)>>)
+    \* reads used by the shared-core driver (C15)
+    [] op.o = "has" -> Same([t |-> "bool", v |-> CHas(c, op.i)], <<>>)
+    [] op.o = "info" -> Same([t |-> "info", len |-> me.len, bytes |-> CBytes(c), contig |-> CContig(c),
+                              writable |-> me.writable], <<>>)
+    [] op.o = "missing" -> Same([t |-> "n"], <<>>)
     [] op.o = "mro" ->
          IF me.writable
          THEN Res(truth, [cores EXCEPT ![c].writable = FALSE, ![c].sealed = TRUE],
